@@ -588,8 +588,15 @@ class Compiler:
                 raise CompilationError('subquery has too many columns', node.right)
             right = EvalConstantSubquery1D(right)
 
-        # The right operand must be a collection, or be untyped.
-        if right.dtype not in {object, types.NoneType} and not issubclass(right.dtype, collections.abc.Container):
+        # The right operand must be a collection of values (the operator is
+        # declared for sets, lists, and dictionaries), a string when the left
+        # operand is a string (substring test), or be untyped. Structured
+        # values (positions, amounts) are containers for Python, but testing
+        # membership in them fails for most operands.
+        untyped = {object, types.NoneType}
+        supported = right.dtype in untyped or issubclass(right.dtype, (set, frozenset, list, dict)) or (
+            issubclass(right.dtype, str) and (left.dtype in untyped or issubclass(left.dtype, str)))
+        if not supported:
             raise CompilationError(
                 f'operator "{type(node).__name__.lower()}('
                 f'{types.name(left.dtype)}, {types.name(right.dtype)})" not supported', node)
